@@ -105,6 +105,10 @@ class BaseClient:
 
         if isinstance(msg, message.DelProperty):
             device = self.get_device(msg.device)
+            if device and msg.name is None:
+                # no property name: the whole device is gone
+                del self.devices[msg.device]
+                device = None
 
         if device:
             device.process_message(msg)
